@@ -35,6 +35,16 @@ impl Driven for D {
          _ => panic!("verif harness: unknown relation {}", rel),
       }
    }
+   fn clear(&mut self, rel: &str) {
+      match rel {
+         "e" => { self.0.e = Default::default(); },
+         "lt" => { self.0.lt = Default::default(); },
+         "n" => { self.0.n = Default::default(); },
+         "s" => { self.0.s = Default::default(); },
+         "m" => { self.0.m = Default::default(); },
+         _ => panic!("verif harness: unknown relation {}", rel),
+      }
+   }
    fn run(&mut self) { self.0.run(); }
    fn dump(&self) -> Value {
       let mut m: Vec<(String, Value)> = vec![];
